@@ -48,6 +48,7 @@ var (
 
 func runC19(p *core.Prog, r *core.Result) {
 	r.Decided = []string{
+		"R19.6 the loader assigns no decoded field of Config, and of a requirement only its path (CleanPath): name, version and ignore list are returned as written",
 		"R19.5 loading a configuration touches no package-level state: every load decodes the bytes afresh, so no two loaded configurations share maps or slices through a cache",
 		"R19.4 every format string of the writer is a constant: configuration data is only ever an operand, never the format",
 		"R19.1 the hand-written writer emits every toml-tagged field of Config and RequirementConfig, under the key given by the field's tag",
@@ -214,6 +215,62 @@ func runC19(p *core.Prog, r *core.Result) {
 			r.Bad("R19.5", "internal/project.LoadConfigBytes#package-state", p.InstrPos(at), "loading a configuration reads or writes package-level state (%s): the value returned for some bytes can then depend on earlier loads and on what callers did with earlier results (a cached *Config shares its requirement map and ignore list with every copy handed out), so write-then-load no longer yields what was written", strings.Join(touched, ", "))
 		} else {
 			r.OK("R19.5", "internal/project.LoadConfigBytes#package-state", p.Pos(lb.Pos()), "the loader (%d function(s) of the package) touches no package-level variable: the result is decoded afresh from the bytes", nF)
+		}
+	}
+
+	// ---- R19.6 the loader returns what the file says: decoded fields are not rewritten (except the documented
+	// cleaning of requirement paths)
+	if lb := p.Func("internal/project", "", "LoadConfigBytes"); lb != nil {
+		nSt := 0
+		for f := range staticClosure(p, lb) {
+			if f.Pkg == nil || f.Pkg != lb.Pkg {
+				continue
+			}
+			core.Instrs(f, func(in ssa.Instruction) {
+				st, ok := in.(*ssa.Store)
+				if !ok {
+					return
+				}
+				fa, ok := st.Addr.(*ssa.FieldAddr)
+				if !ok {
+					return
+				}
+				owner, field := core.FieldOf(fa)
+				if owner == nil || owner.Obj().Pkg() == nil || owner.Obj().Pkg().Path() != pkgProj {
+					return
+				}
+				switch owner.Obj().Name() {
+				case "Config":
+					nSt++
+					r.Bad("R19.6", fmt.Sprintf("%s#rewrites-Config.%s", fname(f), field), p.InstrPos(st), "the loader assigns Config.%s after decoding: the loaded configuration is not the written one (e.g. a project version 'v1.2' or 'v1.2.3+build.5' comes back canonicalised), so get/tidy silently rewrite that line of dawn.toml", field)
+				case "RequirementConfig":
+					nSt++
+					okPath := false
+					if field == "Path" {
+						if c, isCall := st.Val.(*ssa.Call); isCall && core.Callee(c) != nil && core.Callee(c).Name() == "CleanPath" {
+							okPath = true
+						}
+					}
+					// a copy of the same field of the decoded requirement (a composite literal rebuilding the element)
+					switch v := st.Val.(type) {
+					case *ssa.Field:
+						if o2, f2 := core.FieldOf(v); o2 != nil && o2.Obj().Name() == "RequirementConfig" && f2 == field {
+							okPath = true
+						}
+					case *ssa.UnOp:
+						if fa2, isFA := v.X.(*ssa.FieldAddr); isFA && v.Op == token.MUL {
+							if o2, f2 := core.FieldOf(fa2); o2 != nil && o2.Obj().Name() == "RequirementConfig" && f2 == field {
+								okPath = true
+							}
+						}
+					}
+					r.Check(okPath, "R19.6", fmt.Sprintf("%s#rewrites-RequirementConfig.%s", fname(f), field), p.InstrPos(st), "only the requirement path is normalised (CleanPath)", "the loader rewrites RequirementConfig."+field+": the loaded requirement differs from the written one")
+				}
+			})
+		}
+		r.Analysed["loader_field_stores"] = nSt
+		if nSt == 0 {
+			r.OK("R19.6", "internal/project.LoadConfigBytes#decoded-fields-untouched", p.Pos(lb.Pos()), "no decoded field is assigned by the loader")
 		}
 	}
 
